@@ -39,7 +39,7 @@ def bases(seed, n):
 
 def phase_labels(scn, rec):
     ph = list(rec["phases"])
-    auto = scn["options"].get("uncertainty_handling") is None and not scn["options"].get("specify_target_noise")
+    auto = scn["options"].get("uncertainty_handling") in (None, False) and not scn["options"].get("specify_target_noise")
     lab = []
     for i, p in enumerate(ph):
         if i == 0:
